@@ -6,5 +6,6 @@ CONSTANTS MaxSteps = 3
           Edits = FALSE
           Pairs = "no"
           Extend = FALSE
+          Mech = FALSE
 INIT Init
 NEXT NextGen
